@@ -1,15 +1,15 @@
 SPECIFICATION Spec
 CONSTANTS
-  Threads = {"r1", "r2", "r3", "r4"}
-  Names = {"n1", "n3"}
+  Threads = {"r1", "r2"}
+  Names = {"n1", "n2", "n3"}
   PeerSnl <- Peer3
   NameLen <- Len3
   SendMiu = 12
   PopHead = FALSE
-  MaxCalls = 1
+  MaxCalls = 2
   WakeCheck = TRUE
-  Tids = {i0, i1, i2, i3}
-  GiveBack = TRUE
+  Tids = {i0, i1, i2}
+  GiveBack = FALSE
 INVARIANT ResolveReturns
 INVARIANT NoLostWakeup
 INVARIANT RequestOut
